@@ -5,6 +5,7 @@
    proofs in proofs/TimersP.v.  All theorems quantify over ALL op sequences that begin with
    connect() on a client or with a first receive_datagram() on a server. *)
 From AQ Require Import lib.Base model.Timers model.TimersSpec proofs.TimersP model.TimersFull model.TimersFullSpec proofs.TimersFullP.
+From AQ Require model.RecBase model.Recovery proofs.TimersFullLink.
 
 (* Until termination _close_at is set: get_timer() does not raise (the comparison with None is
    unreachable) and returns a finite time not later than _close_at, whatever the ack / loss /
@@ -186,3 +187,14 @@ Theorem timer_progress_pacing_fixed :
   fst (frun true f0 (stale_loop 601 202)) = [RUnit; RSent SNone; RTimer (Some 601)].
 Proof. exact stale_history_fixed. Qed.
 Print Assumptions timer_progress_pacing_fixed.
+
+(* Link to C08's model of recovery.py (model/Recovery.v, any congestion controller, any float interface whose `<` on
+   times is the order of the time grid): the loss detection source of the composed model -- loss_time of the first space
+   with the smallest loss_time, else the PTO deadline when the peer has not completed address validation or
+   ack-eliciting packets are in flight, else nothing -- IS Recovery.loss_detection_time on the projected recovery state,
+   with the PTO deadline VALUE _time_of_last_sent_ack_eliciting_packet + get_probe_timeout() * 2**_pto_count. *)
+Theorem loss_timer_refines_recovery : forall (C : Type) (F : RecBase.fops Z),
+  (forall a b, RecBase.fltb F a b = (a <? b)) -> forall (c : conn) (st : Recovery.rec (T:=Z) (C:=C)),
+  Recovery.loss_detection_time F st = loss_time_of (TimersFullLink.abs_rec c st) (TimersFullLink.pto_deadline F st).
+Proof. exact (fun C F => TimersFullLink.loss_time_link_lemma F). Qed.
+Print Assumptions loss_timer_refines_recovery.
